@@ -35,6 +35,13 @@ pub trait VF: RichField + Extendable<2> {
         let _ = prefix;
         (vals.to_vec(), vals.to_vec())
     }
+    /// Run `f` with undetermined symbolic comparisons (guards such as `if x.is_one()` /
+    /// `if x == 0` in library code) taken as *unequal*; each such decision is added to the path
+    /// hypotheses of the obligations emitted afterwards and reported in their assumptions.
+    /// Natively a no-op.
+    fn assume_ne<R>(f: impl FnOnce() -> R) -> R {
+        f()
+    }
     /// multiplicative factors of the term: x == 0 iff some factor == 0 (natively: [x])
     fn factors(x: Self) -> Vec<Self> {
         vec![x]
@@ -95,6 +102,12 @@ impl VF for SymF {
         }
         let defs = vals.iter().map(|v| SymF::from_op(crate::subst(v.op(), &map, true))).collect();
         (syms, defs)
+    }
+    fn assume_ne<R>(f: impl FnOnce() -> R) -> R {
+        let old = crate::set_unknown(crate::Unknown::AssumeNe);
+        let r = f();
+        crate::set_unknown(old);
+        r
     }
     fn factors(x: Self) -> Vec<Self> {
         crate::factors(x.op()).into_iter().map(SymF::from_op).collect()
@@ -408,7 +421,7 @@ impl Ctx {
                     });
                 let ql = smt::query(&hyps, &goals, true, ob.perm_injective, true);
                 let qn = smt::query(&hyps, &goals, false, ob.perm_injective, true);
-                let trivial = trivial || ql.goals_trivial;
+                let closed_kind = if trivial { Some("syntactic") } else if ql.goals_trivial { Some("normal-form") } else { None };
                 let vars = qn.vars.clone();
                 if ql.n_dens > 0 {
                     assumptions.push(format!("{} inverted quantities are non-zero (the real code panics / returns None otherwise)", ql.n_dens));
@@ -438,7 +451,7 @@ impl Ctx {
                     sample: ob.sample.clone(),
                     smt: Some(smt_file),
                     vacuity: vac,
-                    closed: if trivial { Some("syntactic".into()) } else { None },
+                    closed: closed_kind.map(|s| s.to_string()),
                     vars: vars.values().map(|n| (smt::var_smt_name(n), n.clone())).collect(),
                     nodes,
                     single_solver: has_inv && false,
